@@ -50,6 +50,14 @@ def key_classes(c, n, rnd, nwalk, nrand):
                                           '133457799bbcdff1', '123456788abcdef0')]                                    # parity variants
     if c == 'threefish':
         ks += [b'\xff' * 8 + bytes(n - 8), bytes(n - 8) + b'\xff' * 8]                  # all-one / zero 64-bit words
+    # "short" words: every 32/64-bit word has leading zero bytes under either byte order (a representation sized by the value loses carries / digits)
+    if n % 8 == 0: ks += [(b'\xff' * 4 + bytes(4)) * (n // 8), (bytes(4) + b'\xff' * 4) * (n // 8), (b'\xff\xff' + bytes(6)) * (n // 8), (b'\x00' * 7 + b'\xfe') * (n // 8)]
+    else: ks += [(b'\xff' + bytes(3)) * (n // 4) + bytes(n % 4), (bytes(3) + b'\xff') * (n // 4) + bytes(n % 4)]
+    # keys whose integer value is a multiple of 2^61-1 or 2^31-1 (the moduli of CPython's int hash) under either byte order: with the zero key in
+    # the same process, anything keyed by hash(key) instead of the key itself confuses them
+    if n >= 8:
+        for mod in ((1 << 61) - 1, (1 << 31) - 1):
+            ks += [mod.to_bytes(n, 'little'), mod.to_bytes(n, 'big')]
     return ks
 
 # ---- components ---------------------------------------------------------------------------------------------
